@@ -36,7 +36,7 @@ THEOREMS = [
     # Name.py wire-level functions TRANSLATED from their source text on every run (-> lean/NdnGen/NameGen.lean: reduce =
     # fold, for = Py.forEach, while = recursion on fuel) = the model functions (Ndn.Name.*), for all inputs
     'Ndn.NameGen.all_translated', 'Ndn.NameGen.encoded_length_eq', 'Ndn.NameGen.is_prefix_core_eq',
-    'Ndn.NameGen.encode_eq', 'Ndn.NameGen.decode_eq', 'Ndn.NameGen.decode_error_class', 'Ndn.NameGen.decode_fuel_suffices',
+    'Ndn.NameGen.encode_eq', 'Ndn.NameGen.encode_eq_empty', 'Ndn.NameGen.encode_into_eq', 'Ndn.NameGen.decode_eq', 'Ndn.NameGen.decode_error_class', 'Ndn.NameGen.decode_fuel_suffices',
     'Ndn.NameGen.decode_error_of_model', 'Ndn.NameGen.decode_ok_model',
 ]
 PARTIAL = {}
@@ -54,7 +54,10 @@ TRUSTED = [
     'C09 (Name.py wire-level functions): encoded_length, encode, decode and the last two lines of is_prefix are translated '
     'from the source text by harness/py2lean.py (reduce(lambda) = a left fold, `for comp in name` = Py.forEach, the `while` '
     'loop of decode = recursion on a fuel argument whose bound `length + 1` is DECLARED by the request and proved never to '
-    'be exhausted) and proved equal to Ndn.Name.* for all inputs; trusted there, besides the translator and PySem.lean: '
+    'be exhausted) and proved equal to Ndn.Name.* for all inputs (encode: fresh buffer, empty buffer passed, and into a '
+    'caller-supplied buffer at an offset; decode at offset 0: Ndn.Name.decode followed by the check the source has since the '
+    'repair of finding F3 - bytes consumed = header + declared Length, else IndexError - which the model loop does not make); '
+    'trusted there, besides the translator and PySem.lean: '
     'that a FormalName argument is a list of byte strings which the call does not change meanwhile, and - declared by the '
     'request, stated in the generated file - that Name.normalize returns an equal list on an argument that already is a '
     'list of byte strings (is_prefix is translated for such arguments only)',
